@@ -1574,6 +1574,7 @@ def fit_oracle(case, impl, fobj=None):
                     if not fp <= fq * (1 + 1e-5) + atol:
                         bad.append(("residual_le_admissible_perturbation",
                                     f"residual {fp!r} at the result {list(p)} > {fq!r} at the exact constrained optimum {q}"))
+                        info.setdefault("gap", {}).setdefault("residual_le_admissible_perturbation", fp / max(fq + atol, 1e-300))
         # documented weight semantics: sum_i w_i * r_i^2 with w = weights(x, y)
         if sigma is not None and len(set(impl["w"])) > 1 and cons is None and all(v > 0 for v in impl["w"]):
             w_doc = [fr(v) for v in impl["w"]]
@@ -1599,11 +1600,12 @@ def gap_class(ratio):
     return "more than 100x"
 
 
-def slsqp_nonlinear_where(shape, ratio):
-    """known-finding class of the SLSQP path on shapes non-linear in their parameters: one signature per shape and
-    gap class, so that a failure on another shape or with a gap of another size is reported as a violation"""
-    return (f"constraints declared (SLSQP path); shape {shape} (non-linear in its parameters); residual at the result "
-            f"{gap_class(ratio)} the residual at the reference point")
+def slsqp_nonlinear_where(shape, ratio, linear=False):
+    """known-finding class of the SLSQP path (on the unchanged code: shapes non-linear in their parameters and the badly
+    scaled cubic polynomial): one signature per shape and gap class, so that a failure on another shape or with a gap
+    of another size is reported as a violation"""
+    return (f"constraints declared (SLSQP path); shape {shape} ({'linear' if linear else 'non-linear'} in its parameters); "
+            f"residual at the result {gap_class(ratio)} the residual at the reference point")
 
 
 WEIGHTS_WHERE = "weights callable with non-constant positive weights; shape linear in its parameters"
@@ -1653,9 +1655,8 @@ def process_fits(ck, cases):
             ck.count("fit:linear-inactive-bounds(exact reference compared)")
         for pred, detail in bad:
             where = WEIGHTS_WHERE if pred == "weighted_residual_minimal_with_documented_weights" else None
-            if (pred in ("residual_le_start", "residual_le_admissible_perturbation")
-                    and case["constraints"] is not None and not impl["linear"]):
-                where = slsqp_nonlinear_where(case["shape"], info.get("gap", {}).get(pred, float("inf")))
+            if pred in ("residual_le_start", "residual_le_admissible_perturbation") and case["constraints"] is not None:
+                where = slsqp_nonlinear_where(case["shape"], info.get("gap", {}).get(pred, float("inf")), impl["linear"])
                 if os.environ.get("C14_COLLECT"):
                     print("COLLECT", json.dumps(fit_sig(pred, where)), case.get("bounds_mode"), case.get("cons_mode"),
                           info.get("gap", {}).get(pred), flush=True)
